@@ -1267,7 +1267,12 @@ ErrorCode RobustPath::spine(Array<Vec2> &result) const {
         double u1 = 1;
         double u2 = 0;
         ErrorCode err = spine_intersection(*sub0, *sub1, u1, u2);
-        if (err != ErrorCode::NoError) error_code = err;
+        if (err != ErrorCode::NoError) {
+            // The search leaves its last iterate behind: do not trim with it
+            error_code = err;
+            u1 = 1;
+            u2 = 0;
+        }
         if (u2 < 1) {
             if (u1 > u0) spine_points(*sub0, u0, u1, result);
             u0 = u2;
@@ -1361,7 +1366,12 @@ ErrorCode RobustPath::to_polygons(bool filter, Tag tag, Array<Polygon *> &result
                 double u2 = 0;
                 ErrorCode err =
                     left_intersection(*sub0, *offset0, *width0, *sub1, *offset1, *width1, u1, u2);
-                if (err != ErrorCode::NoError) error_code = err;
+                if (err != ErrorCode::NoError) {
+                    // The search leaves its last iterate behind: do not trim with it
+                    error_code = err;
+                    u1 = 1;
+                    u2 = 0;
+                }
                 if (u2 < 1) {
                     if (u1 > u0) left_points(*sub0, *offset0, *width0, u0, u1, left_side);
                     u0 = u2;
@@ -1386,7 +1396,12 @@ ErrorCode RobustPath::to_polygons(bool filter, Tag tag, Array<Polygon *> &result
                 double u2 = 0;
                 ErrorCode err =
                     right_intersection(*sub0, *offset0, *width0, *sub1, *offset1, *width1, u1, u2);
-                if (err != ErrorCode::NoError) error_code = err;
+                if (err != ErrorCode::NoError) {
+                    // The search leaves its last iterate behind: do not trim with it
+                    error_code = err;
+                    u1 = 1;
+                    u2 = 0;
+                }
                 if (u2 < 1) {
                     if (u1 > u0) right_points(*sub0, *offset0, *width0, u0, u1, right_side);
                     u0 = u2;
@@ -1492,7 +1507,12 @@ ErrorCode RobustPath::element_center(const RobustPathElement *el, Array<Vec2> &r
         double u1 = 1;
         double u2 = 0;
         ErrorCode err = center_intersection(*sub0, *offset0, *sub1, *offset1, u1, u2);
-        if (err != ErrorCode::NoError) error_code = err;
+        if (err != ErrorCode::NoError) {
+            // The search leaves its last iterate behind: do not trim with it
+            error_code = err;
+            u1 = 1;
+            u2 = 0;
+        }
         if (u2 < 1) {
             if (u1 > u0) center_points(*sub0, *offset0, u0, u1, result);
             u0 = u2;
